@@ -31,7 +31,7 @@ def main():
     ]
     if c.setup():
         for label, kw in configs(c.tier):
-            c.run(label, 'rsym.hr', 'Rewrites', kw, required_witnesses=('rendered',), time_cap=150 if c.tier == 'quick' else 900)
+            c.run(label, 'rsym.hr', 'Rewrites', kw, required_witnesses=('rendered',), time_cap=600 if c.tier == 'quick' else 900)
     c.finish(bounds={'skeletons': [l for l, _ in configs(c.tier)]},
              outside=['reader buffer sizes (quick_xml internals; sampled natively only)', 'documents outside the skeletons'],
              trusted=['rsym + models', 'z3', 'tools/replay'],
